@@ -10,9 +10,9 @@ from pbt import gfref as G
 from pbt.engine import Check, Violation, R, B, is_exc
 
 # gf_edf_shoup with odd p and n >= 2 degenerates into a slow random walk with unbounded
-# recursion (finding KF-C23-02): expected recursion depth grows like p**(n-1).  Inputs beyond
-# this bound are not given to gf_edf_shoup / gf_shoup.
-EDF_SHOUP_LIMIT = 100
+# recursion (finding KF-C23-02): expected recursion depth grows like p**(n-1) per split.  Blocks of N
+# irreducibles of degree n with p**(n-1) * N beyond this bound are not given to gf_edf_shoup / gf_shoup.
+EDF_SHOUP_LIMIT = 200
 # gf_edf_zassenhaus over GF(2) runs a loop of 2**(deg-1) modular squarings per random trial
 # (as its sympy original); equal-degree blocks beyond this degree are only given to the Shoup family.
 P2_BLOCK_LIMIT = 8
@@ -298,7 +298,8 @@ class C23(Check):
                    "exception other than NotImplementedError is a violation",
                    "excluded by construction (recorded findings): zero polynomial +/- integer and gf_compose_mod / "
                    "gf_ddf_shoup / gf_trace_map inputs whose Horner evaluation passes through zero (KF-C23-01); "
-                   "gf_edf_shoup / gf_shoup on blocks with p odd, n>=2 and p**(n-1) > %d (KF-C23-02); division by an "
+                   "gf_edf_shoup / gf_shoup on blocks of N irreducibles of degree n with p odd, n>=2 and p**(n-1)*N > %d, and "
+                   "their spurious DivisionByZeroError for n>=3 (KF-C23-02); division by an "
                    "integer that is a non-zero multiple of p (KF-C23-03); get_coeff(0) of the zero polynomial "
                    "(KF-C23-04). VERIF_C23_REPORT_KNOWN=all judges them (replays/known/C23-*.json)" % EDF_SHOUP_LIMIT,
                    "not judged (counted as skipped): modulus of degree < 1 in gf_compose_mod / gf_pow_mod(n=0), "
@@ -603,7 +604,7 @@ class C23(Check):
                     return "returned %s, expected the set %s" % (got, want)
                 return None
             return j
-        slow = any(p != 2 and k >= 2 and len(v) >= 2 and p ** (k - 1) > EDF_SHOUP_LIMIT for k, v in groups.items())
+        slow = any(p != 2 and k >= 2 and len(v) >= 2 and p ** (k - 1) * len(v) > EDF_SHOUP_LIMIT for k, v in groups.items())
         hit = shoup_compose_hit(g, p) and "01" not in JUDGE_KNOWN
         P.custom(["gf_ddf_zassenhaus", rg], "gf_ddf_zassenhaus", dg, j_ddf)
         if p2slow:
@@ -630,7 +631,7 @@ class C23(Check):
                 self.skip("slow:GF(2)_edf_zassenhaus_block>%d" % P2_BLOCK_LIMIT)
             else:
                 P.custom(["gf_edf_zassenhaus", re_, k], "gf_edf_zassenhaus", de, j_set(v))
-            if p != 2 and k >= 2 and len(v) >= 2 and p ** (k - 1) > EDF_SHOUP_LIMIT:
+            if p != 2 and k >= 2 and len(v) >= 2 and p ** (k - 1) * len(v) > EDF_SHOUP_LIMIT:
                 self.skip("known:KF-C23-02:edf_shoup_unbounded")
             else:
                 P.custom(["gf_edf_shoup", re_, k], "gf_edf_shoup", de, j_set(v),
